@@ -229,7 +229,7 @@ class Ctx:
             else:
                 with open(dst, "w") as f:
                     f.write(src)
-        jopts = ["-XX:+UseParallelGC", "-Xmx" + xmx, "-Xss64m"]
+        jopts = ["-XX:+UseParallelGC", "-Xmx" + xmx, "-Xss64m", "-Djava.io.tmpdir=" + wd]   # TLC unpacks its standard modules into tmpdir: keep that inside the run's scratch
         if deque:
             jopts.append("-Dtlc2.tool.queue.IStateQueue=StateDeque")
         argv = ["java"] + jopts + ["-cp", TLA_CP, "tlc2.TLC", "-workers", str(workers),
